@@ -115,7 +115,7 @@ def float_const(c):
 
 
 class SymEx:
-    def __init__(self, facts, max_depth=8, max_paths=400, opaque=(), models=None, seq_sources=(), sym_collections=False):
+    def __init__(self, facts, max_depth=8, max_paths=5000, opaque=(), models=None, seq_sources=(), sym_collections=False):
         self.f = facts
         self.sym_collections = sym_collections   # iterating a symbolic Vec / slice gives the symbolic sequence of its elements
         self.seq_sources = tuple(seq_sources)   # callee-name suffixes whose (opaque) result is a symbolic sequence
@@ -681,6 +681,15 @@ class SymEx:
             if o_[2][0] == 'Some':
                 return [(st, STRUCT('std::result::Result', ('Ok', 0), [('0', sfield(o_, '0'))]))]
             return [(st, STRUCT('std::result::Result', ('Err', 1), [('0', APP('pk::error', app[2][1]))]))]
+        if app[1].rsplit('::', 1)[-1] in ('map_err', 'context', 'with_context', 'or_else') and len(app[2]) == 2 and \
+                ('result::Result' in name or 'Context' in name) and app[2][0][0] == 'struct' and app[2][0][2] is not None and \
+                app[2][0][1].endswith('result::Result'):
+            # error-decorating wrappers on a known Result variant: Ok passes through, Err stays an (opaque) error
+            r_ = app[2][0]
+            if r_[2][0] == 'Ok':
+                return [(st, r_)]
+            if app[1].rsplit('::', 1)[-1] != 'or_else':
+                return [(st, STRUCT('std::result::Result', ('Err', 1), [('0', APP('pk::error', sfield(r_, '0'), app[2][1]))]))]
         if app[1] in ('tuple::eq', 'tuple::ne') and len(app[2]) == 2:
             # (a, b) == (c, d)  is  a == c & b == d  (derived structural equality of tuples)
             ta, tb = app[2]
